@@ -8,7 +8,7 @@ head=$(git -C $V rev-parse HEAD)
 names=${NAMES:-$(ls $V/seeded)}
 n=$#; i=0
 for w in "$@"; do
-  git -C $w checkout -q --detach $head || { echo "$w: cannot check out $head"; exit 2; }
+  git -C $w checkout -q -f --detach $head || { echo "$w: cannot check out $head"; exit 2; }
   eval "part$i=''"; i=$((i+1))
 done
 k=0
